@@ -64,6 +64,9 @@ CHECKS = {
                 text="At every stage prefix of the real pipeline on every generated closed CFG (and a bytecode graph) the graph is written and re-read through to_dict/from_dict and to_yaml/from_yaml; Scfg.C15.sameHier_sound proves that a true answer of the Lean decider means entry-by-entry equality of every field the property lists; "
                      "the second dictionary must equal the first, write-read-write-read must be stable, and the next pipeline stage runs on the re-read graph.", ref="§7 C15",
                 note="Trusted: Lean kernel + standard axioms; exporter; PyYAML. No Lean model of the reader/writer yet: the quantifier over graphs is by enumeration."),
+    "C17": dict(cat="translation_validation", tech="Lean 4: drawing specification specDrawing/drawingOK with soundness theorem, evaluated on the drawing parsed from the real DOT source of every stage output",
+                text="The real SCFGRenderer / ByteFlowRenderer output for every stage of every generated closed CFG (and bytecode graphs) is parsed and judged by Scfg.Spec.drawingOK: nodes, nested clusters and solid/dashed edges with header-resolved destinations must equal, as multisets, what specDrawing prescribes (Scfg.C17.drawingOK_sound, spec_nodes, spec_clusters); labels are checked for each required field.", ref="§7 C17",
+                note="Trusted: Lean kernel + standard axioms; exporter; the graphviz package's DOT printer; harness/dot.py. No Lean model of the renderer's control flow: the quantifier over graphs is by enumeration."),
 }
 
 NOT_YET = {}
